@@ -102,6 +102,42 @@ Section OldStack.
   Definition recv_all (segs : list (list Z)) : list M * outcome (list Z) :=
     recv_all_fuel (S (length (concat segs) + length segs)) [] segs.
 
+  (* A consumer that polls: recv_full_msg under tokio::time::timeout / select!.  The
+     pending bytes live in self.temp (a field of ChannelBuffer), so they survive a
+     call that is dropped while it waits in dequeue_chunk.  Events: a segment arrives
+     in the agent's queue, or the consumer calls recv_full_msg and - if the call does
+     not return with what is queued - abandons it (the future is dropped at the await). *)
+  Inductive poll_event : Type :=
+  | EArrive (chunk : list Z)
+  | EPoll.
+
+  (* state between events: temp and the chunks queued in the channel; result:
+     messages the polls returned, then the state (or the error a poll returned) *)
+  Fixpoint drive (temp : list Z) (queued : list (list Z)) (evs : list poll_event)
+    : list M * outcome (list Z * list (list Z)) :=
+    match evs with
+    | [] => ([], Ok (temp, queued))
+    | EArrive c :: r => drive temp (queued ++ [c]) r
+    | EPoll :: r =>
+      match recv_full_msg temp queued with
+      | Got m t cs => let '(ms, fin) := drive t cs r in (m :: ms, fin)
+      | Waiting t => drive t [] r          (* cancelled: everything dequeued so far is in temp *)
+      | Failed e => ([], Err e)
+      end
+    end.
+
+  (* polls as above, then the consumer waits without giving up *)
+  Definition drive_then_wait (evs : list poll_event) : list M * outcome (list Z) :=
+    match drive [] [] evs with
+    | (out1, Ok (t, q)) =>
+      let '(out2, fin) := recv_all_fuel (S (length t + length (concat q) + length q)) t q in (out1 ++ out2, fin)
+    | (out1, Err e) => (out1, Err e)
+    | (out1, Panic p) => (out1, Panic p)
+    end.
+
+  Definition arrivals (evs : list poll_event) : list (list Z) :=
+    flat_map (fun e => match e with EArrive c => [c] | EPoll => [] end) evs.
+
   (* ChannelBuffer::send_msg_chunks: payload.chunks(MAX_SEGMENT_PAYLOAD_LENGTH) *)
   Definition send_msg_chunks (m : M) : list (list Z) := chunks MAX_SEGMENT_PAYLOAD_LENGTH (enc m).
 End OldStack.
